@@ -328,6 +328,9 @@ class ModelStepper:
             den = float(np.max(np.abs(r))) if r.size else 0.0
             num = float(np.max(rn)) if rn.size else 0.0
             if num == 0.0:
+                # residual and all its summands vanish identically: the local scale is exactly 0 (the implementation
+                # floors it / divides 0 by 0); treat like a complete cancellation
+                amp = float("inf")
                 continue
             amp = max(amp, num / den if den > 0 else float("inf"))
         return amp
